@@ -506,6 +506,9 @@ func propsOfMismatch0(m Mismatch, ev map[string]any) []string {
 			return ps
 		case m.St == "different":
 			if m.Exp == "failed" && m.Got == "passed" {
+				if api == "json" || api == "sjson" || api == "yaml" {
+					return []string{"C02", "C16", docProp()} // an unmasked difference did not show
+				}
 				return []string{"C02"}
 			}
 			if m.Exp == "failed" {
@@ -527,6 +530,8 @@ func propsOfMismatch0(m Mismatch, ev map[string]any) []string {
 		return []string{docProp()}
 	case "json.lossy":
 		return []string{"C14"}
+	case "buf.modified":
+		return []string{"C15"}
 	case "nowrite":
 		ps := []string{}
 		switch {
